@@ -134,6 +134,8 @@ def net_config(cfg: Dict[str, Any]) -> Optional[Dict[str, Any]]:
     if kind == "image":
         enc = {"channel_size": [8], "kernel_size": [3], "stride_size": [1], "min_hidden_layers": 1, "max_hidden_layers": 2,
                "min_channel_size": 4, "max_channel_size": 24, "activation": "ReLU"}
+        if cfg.get("no_bn"):
+            enc["layer_norm"] = False
         return {"latent_dim": 16, "min_latent_dim": 8, "max_latent_dim": 32, "encoder_config": enc, "head_config": head}
     return {"latent_dim": 16, "head_config": head}
 
@@ -187,6 +189,8 @@ def make_agent(cfg: Dict[str, Any], index: int = 0, hp=None, seed: int = 0):
         kw.update(num_atoms=11, v_min=-5.0, v_max=5.0)
     if algo in ("PPO", "IPPO"):
         kw.update(update_epochs=2, learn_step=8)
+    if "learn_step" in cfg:
+        kw["learn_step"] = cfg["learn_step"]
     if algo in MULTI:
         return cls(o, a, agent_ids=ma_ids(cfg), **kw)
     return cls(o, a, **kw)
@@ -217,6 +221,7 @@ def make_batch(agent, cfg: Dict[str, Any], seed: int, done_mode: str = "mixed", 
     algo = cfg["algo"]
     B = int(batch_size or getattr(agent, "batch_size", cfg["batch_size"]))
     r = np.random.RandomState(seed % (2**32 - 1))
+    r_noise = np.random.RandomState((seed * 31 + 7) % (2**32 - 1))  # separate stream: the base batch must not shift
     o_sp, a_sp = spaces_of(cfg)
     if algo in ("PPO", "IPPO"):
         return make_rollout(agent, cfg, seed, done_mode)
@@ -241,7 +246,7 @@ def make_batch(agent, cfg: Dict[str, Any], seed: int, done_mode: str = "mixed", 
             rw[ag] = r.uniform(-1, 1, size=B).astype(np.float32)
             dn[ag] = done.copy()
             if noise_next_where_done:
-                ns[ag] = _noise_where(ns[ag], done, o_sp[i], r)
+                ns[ag] = _noise_where(ns[ag], done, o_sp[i], r_noise)
         buf.save_to_memory(st, ac, rw, ns, dn, is_vectorised=True)
         seed_all(seed)
         exp = buf._process_transition(list(buf.memory))
@@ -251,7 +256,7 @@ def make_batch(agent, cfg: Dict[str, Any], seed: int, done_mode: str = "mixed", 
     obs = sample_obs(o_sp, r, B)
     nobs = sample_obs(o_sp, r, B)
     if noise_next_where_done:
-        nobs = _noise_where(nobs, done, o_sp, r)
+        nobs = _noise_where(nobs, done, o_sp, r_noise)
     act = sample_act(a_sp, r, B)
     rew = r.uniform(-1, 1, size=B).astype(np.float32)
     td = Transition(obs=obs, action=act, reward=rew, next_obs=nobs, done=done).to_tensordict()
